@@ -1,6 +1,7 @@
 package pxw
 
 import (
+	"bytes"
 	"strings"
 	"fmt"
 	"os"
@@ -160,6 +161,44 @@ func TestDebugMySQL(t *testing.T) {
 		}
 		for _, row := range pw.DB.Tables["t1"].Rows {
 			fmt.Printf("stored: %.60q\n", row)
+		}
+	})
+}
+
+func TestDebugMySQLBig(t *testing.T) {
+	if os.Getenv("VERIF_DEBUG_MYSQL_BIG") == "" {
+		t.Skip()
+	}
+	w := kernel.NewWorld(&kernel.Plan{Seed: 7}, false)
+	w.MaxSteps = 1 << 40
+	Bubble(t, 7, func() {
+		rng := kernel.NewRNG(7, 1)
+		cols := []colKind{{Name: "c1", Envelope: "acrablock"}}
+		pw, err := NewPgWorld(w, rng, PgWorldConfig{SchemaYAML: schemaYAML(cols), Clients: []string{owner, stranger}, MySQL: true})
+		if err != nil {
+			t.Fatal(err)
+		}
+		pw.maxSteps = 1 << 30
+		t2 := pw.DB.AddTable("t2", Col{"id", TInt4}, Col{"note", TText})
+		for _, n := range []int{0xffffff - 20, 0xffffff - 5, 0xffffff, 0xffffff + 10} {
+			big := bytes.Repeat([]byte("v"), n)
+			t2.Rows = [][][]byte{{[]byte("1"), big}}
+			script := []Stmt{
+				{SQL: "SELECT id, note FROM t2 WHERE id = 1"},
+				{SQL: "SELECT id, note FROM t2 WHERE id = ?", Extended: true, Args: []interface{}{int64(1)}},
+				{SQL: "INSERT INTO t2 (id, note) VALUES (?, ?)", Extended: true, Args: []interface{}{int64(2), string(big)}},
+				{SQL: "SELECT id FROM t2 WHERE id = 2"},
+			}
+			run := pw.RunSession(owner, script)
+			fmt.Printf("n=%d steps=%d stuck=%v clientErr=%q proxyErrs=%v panics=%v\n", n, run.Steps, run.Stuck, run.ClientErr, run.ProxyErrs, pw.Panics)
+			for i, r := range run.Results {
+				l := -1
+				if len(r.Rows) > 0 && len(r.Rows[0]) > 1 {
+					l = len(r.Rows[0][1])
+				}
+				fmt.Printf("  res %d: err=%q ready=%v rows=%d len=%d\n", i, r.Err, r.Ready, len(r.Rows), l)
+			}
+			fmt.Printf("  relay c->db identical=%v db->c identical=%v stored rows=%d\n", bytes.Equal(run.FromCl.Log, run.ToDB.Log), bytes.Equal(run.FromDB.Log, run.ToClient.Log), len(t2.Rows))
 		}
 	})
 }
